@@ -788,6 +788,10 @@ class _FcntlFacade(object):
     def flock(self, fd, op):
         s = self._os
         proc = s._proc()
+        if not proc.alive:
+            # a killed process unwinding (a finally block reaching its unlock): nothing it does has any effect
+            from whoosim.kernel import SimKilled
+            raise SimKilled()
         ofd = proc.fds.get(fd)
         if ofd is None:
             raise _oserr(errno.EBADF)
